@@ -232,6 +232,14 @@ def run_case(case):
                               counter="read_sync_checked")
                     res.check(np.array_equal(sy[:, 16:], A), "read_sync:nidq-analog",
                               f"thresholded analog lines differ (xa={xa}, {int((sy[:, 16:] != A).sum())} samples)", counter="analog_lines_checked")
+            # the threshold argument: the analog TTLs swing by 2..3 V above their floor, so any threshold between the noise and the swing gives the
+            # same lines, and a threshold above the swing gives silent lines (digital lines never depend on it)
+            for thr in (0.4, 1.9, 3.6):
+                sy = sr.read_sync(slice(0, ns), threshold=thr)
+                expA = A if thr < 2 else np.zeros_like(A)
+                res.check(sy.shape == (ns, 16 + xa) and np.array_equal(sy[:, :16], T) and np.array_equal(sy[:, 16:], expA), "read_sync:nidq-threshold",
+                          f"nidq read_sync(threshold={thr}): analog lines differ at {int((sy[:, 16:] != expA).sum()) if sy.shape == (ns, 16 + xa) else '?'} samples "
+                          f"(swing 2..3 V above the floor)", counter="analog_lines_checked")
             # partial, strided and reversed selections: digital rows exactly; an analog line is judged when at least 15 % of the selected
             # samples are at its low level (the reader takes the 10th percentile of the selection as the floor)
             a0 = int(rng.integers(0, ns // 3))
